@@ -35,13 +35,17 @@ theorem C01_every_chunk_ends_with_eot (pf : Int) (tracks : List (List Event)) :
 theorem C01_chunk_count (pf : Int) (tracks : List (List Event)) :
     (songBodies pf tracks).length = tracks.length := songBodies_length pf tracks
 
-/-- `TIMEBASE` is clamped to at least 48 at lex time: the division is positive -/
-theorem C01_timebase_clamp (v : Int) : 48 ≤ readTimebase v := by
-  unfold readTimebase; split <;> omega
+/-- `TIMEBASE` is clamped into 48..32767 at lex time, whatever is written: the division is a positive 15-bit number for every source -/
+theorem C01_timebase_clamp (v : Int) : 48 ≤ readTimebase v ∧ readTimebase v ≤ 32767 := by
+  unfold readTimebase; split
+  · omega
+  · split <;> omega
 
 /-- within the documented range the time base is taken as written -/
-theorem C01_timebase_identity (v : Int) (h : 48 ≤ v) : readTimebase v = v := by
-  unfold readTimebase; split <;> omega
+theorem C01_timebase_identity (v : Int) (h : 48 ≤ v) (h2 : v ≤ 32767) : readTimebase v = v := by
+  unfold readTimebase; split
+  · omega
+  · split <;> omega
 
 /-- selecting track `no` materialises every track up to it, so `tracks.len()` covers it -/
 theorem C01_tracks_materialised (len no : Nat) :
